@@ -163,6 +163,11 @@ class BaseScheduler:
         tasks. After which the scheduler shuts itself down.
 
         """
+        await self.stop_components()
+        self.error.set()
+
+    async def stop_components(self) -> None:
+        """Produce a StopComponent message to every component of this scheduler."""
         await asyncio.wait(
             {
                 asyncio.create_task(
@@ -172,4 +177,3 @@ class BaseScheduler:
             },
             return_when=asyncio.tasks.ALL_COMPLETED,
         )
-        self.error.set()
